@@ -307,6 +307,115 @@ def _is_bare_if_prefix(pre):
     return False
 
 
+
+# ---------------------------------------------------------------------------------------------
+# R14: try / catch  (exceptions are ghosts: a throw inside a try region jumps to its handlers)
+# ---------------------------------------------------------------------------------------------
+_try_counter = [0]
+
+
+def rw_try(body, retexpr, cnt):
+    """try { B } catch (const T& v) { H } ...   ->
+         { /*VERIF_TRY_BEGIN n*/ B /*VERIF_TRY_END n*/ goto verif_endtry_n; verif_catch_n: ;
+           if (verif_thrown && verif_throw_type == VT_T) { verif_thrown = 0; H } else ... else VERIF_UNWIND_HERE;
+           verif_endtry_n: ; }
+    innermost first, so that nested regions get their own labels.  VERIF_UNWIND_HERE is resolved by resolve_unwinds()."""
+    while True:
+        ms = [m for m in re.finditer(r'(?<![\w])try\s*\{', body)]
+        if not ms:
+            break
+        # innermost = a try whose block contains no further try
+        chosen = None
+        for m in ms:
+            bo = m.end() - 1
+            bc = match_close(body, bo, '{', '}')
+            if not re.search(r'(?<![\w])try\s*\{', body[bo + 1:bc]):
+                chosen = (m, bo, bc)
+                break
+        m, bo, bc = chosen
+        _try_counter[0] += 1
+        n = _try_counter[0]
+        block = body[bo + 1:bc]
+        pos = bc + 1
+        handlers = []
+        while True:
+            mc = re.match(r'\s*catch\s*\(', body[pos:])
+            if not mc:
+                break
+            po = pos + mc.end() - 1
+            pc = match_close(body, po)
+            decl = ' '.join(body[po + 1:pc].split())
+            k = pc + 1
+            while body[k].isspace():
+                k += 1
+            if body[k] != '{':
+                raise ExtractionError('catch without block')
+            hc = match_close(body, k, '{', '}')
+            hbody = body[k + 1:hc]
+            if decl == '...':
+                cond = 'verif_thrown'
+            else:
+                ty = re.sub(r'\b(const)\b|&', ' ', decl).split()[0].replace('::', '_')
+                cond = 'verif_thrown && verif_throw_type == VT_%s' % ty
+            handlers.append((cond, hbody))
+            pos = hc + 1
+        if not handlers:
+            raise ExtractionError('try without catch')
+        # explicit throws inside the region go to the handlers
+        block = block.replace('/*VERIF_THROW_SITE*/', '')
+        hs = ''
+        for cond, hbody in handlers:
+            hs += 'if (%s) { verif_thrown = 0; %s } else ' % (cond, hbody)
+        new = ('{ /*VERIF_TRY_BEGIN %d*/ %s /*VERIF_TRY_END %d*/ goto verif_endtry_%d; verif_catch_%d: ; %sif (verif_thrown) { VERIF_UNWIND_HERE; } verif_endtry_%d: ; }'
+               % (n, block, n, n, n, hs, n))
+        body = body[:m.start()] + new + body[pos:]
+        cnt.hit('R14_try_catch')
+    return body
+
+
+def enclosing_try(body, pos):
+    """number of the innermost try region containing pos, or None"""
+    best = None
+    for m in re.finditer(r'/\*VERIF_TRY_BEGIN (\d+)\*/', body):
+        if m.start() > pos:
+            break
+        e = body.find('/*VERIF_TRY_END %s*/' % m.group(1), m.end())
+        if e > pos:
+            best = m.group(1)   # later BEGINs that still enclose pos are more deeply nested
+    return best
+
+
+def unwind_stmt(body, pos, retexpr):
+    n = enclosing_try(body, pos)
+    return ('goto verif_catch_%s' % n) if n else ('return %s' % retexpr)
+
+
+def resolve_unwinds(body, retexpr, cnt):
+    """VERIF_UNWIND_HERE (after a handler chain that did not match) and VERIF_THROW inside try regions"""
+    while True:
+        i = body.find('VERIF_UNWIND_HERE')
+        if i < 0:
+            break
+        body = body[:i] + unwind_stmt(body, i, retexpr) + body[i + len('VERIF_UNWIND_HERE'):]
+    pos = 0
+    while True:
+        m = re.search(r'\bVERIF_THROW\(', body[pos:])
+        if not m:
+            break
+        st = pos + m.start()
+        n = enclosing_try(body, st)
+        if n:
+            k = pos + m.end() - 1
+            pc = match_close(body, k)
+            new = 'VERIF_THROW_TO(%s, verif_catch_%s)' % (body[k + 1:pc], n)
+            body = body[:st] + new + body[pc + 1:]
+            cnt.hit('R14_throw_in_try')
+            pos = st + len(new)
+        else:
+            pos = pos + m.end()
+    return body
+
+
 def rw_after_throw(body, throwers, retexpr, cnt):
     """statement-level call to a may-throw callee: append `if (verif_thrown) return RET;`"""
     for name in throwers:
@@ -338,20 +447,20 @@ def rw_after_throw(body, throwers, retexpr, cnt):
                     lhs = ma.group(1)
                     call = body[m.start():pc + 1]
                     st_start = body.rindex(pre, 0, m.start())
-                    new = ('{ __typeof__(%s) verif_tmp = %s; if (verif_thrown) return %s; %s = verif_tmp; }'
-                           % (lhs, call, retexpr, lhs))
+                    new = ('{ __typeof__(%s) verif_tmp = %s; if (verif_thrown) %s; %s = verif_tmp; }'
+                           % (lhs, call, unwind_stmt(body, m.start(), retexpr), lhs))
                     body = body[:st_start] + new + body[j + 1:]
                     cnt.hit('R8_assign_from_thrower')
                     pos = st_start + len(new)
                     continue
-                ins = ' if (verif_thrown) return %s;' % retexpr
+                ins = ' if (verif_thrown) %s;' % unwind_stmt(body, m.start(), retexpr)
                 body = body[:j + 1] + ins + body[j + 1:]
                 cnt.hit('R8_after_call')
                 pos = j + 1 + len(ins)
             elif body[j] == ';' and _is_bare_if_prefix(pre):
                 # `if (cond) f(..);` / `else if (cond) f(..);` without braces: the call is the whole controlled statement
                 call = body[m.start():pc + 1]
-                new = '{ %s; if (verif_thrown) return %s; }' % (call, retexpr)
+                new = '{ %s; if (verif_thrown) %s; }' % (call, unwind_stmt(body, m.start(), retexpr))
                 body = body[:m.start()] + new + body[j + 1:]
                 cnt.hit('R8_after_call_unbraced_if')
                 pos = m.start() + len(new)
@@ -359,7 +468,7 @@ def rw_after_throw(body, throwers, retexpr, cnt):
                 # inside an expression / condition: wrap the call itself in a GCC statement expression so that a
                 # throw leaves the function before anything else of the enclosing expression is evaluated
                 call = body[m.start():pc + 1]
-                new = ('({ __typeof__(%s) verif_t = %s; if (verif_thrown) return %s; verif_t; })' % (call, call, retexpr))
+                new = ('({ __typeof__(%s) verif_t = %s; if (verif_thrown) %s; verif_t; })' % (call, call, unwind_stmt(body, m.start(), retexpr)))
                 body = body[:m.start()] + new + body[pc + 1:]
                 cnt.hit('R8_call_in_expression')
                 pos = m.start() + len(new)
@@ -1001,7 +1110,9 @@ def do_extract(spec, cnt, exc_types, info):
     body = rw_calls(body, spec['calls'], cnt)
     body = rw_methods(body, spec['methods'], cnt)
     body = rw_ref_args(body, info.get('_sigs', {}), cnt)
+    body = rw_try(body, retexpr, cnt)
     body = rw_after_throw(body, spec['throws'], retexpr, cnt)
+    body = resolve_unwinds(body, retexpr, cnt)
     body, nloops, annotated = splice_loops(body, spec['loops'], base_line, relfile, cname, cnt)
     check_leftovers(body, cname)
     sig = '%s%s %s(%s)' % ('static ' if spec['static'] else '', ret, cname, cparams)
